@@ -114,6 +114,23 @@ func installBuiltins(it *Interp) {
 		}
 		return canon.Li(out...), nil
 	})
+	it.def("hash-map", func(it *Interp, a []*canon.Node) (*canon.Node, *Err) {
+		if len(a) == 1 {
+			return nil, unspecified("hash-map with one argument")
+		}
+		if len(a)%2 == 1 {
+			return nil, berr("hash-map odd")
+		}
+		m := map[string]*canon.Node{}
+		for i := 0; i < len(a); i += 2 {
+			k, ok := canon.RawKey(a[i])
+			if !ok {
+				return nil, berr("hash-map key")
+			}
+			m[k] = a[i+1]
+		}
+		return canon.Ma(m), nil
+	})
 	it.def("conj", func(it *Interp, a []*canon.Node) (*canon.Node, *Err) {
 		if len(a) < 2 {
 			return nil, unspecified("conj with fewer than two arguments")
